@@ -207,6 +207,14 @@ func checkBucketGeneralises(b *MBucket, members []*MSig) string {
 				return fmt.Sprintf("frame %d: argument list shape differs from a member", ci)
 			}
 		}
+		// the typed rendering, when shown, must be the one of every member
+		if len(bc.Args.Processed) != 0 {
+			for _, m := range members {
+				if jsonStr(m.Stack.Calls[ci].Args.Processed) != jsonStr(bc.Args.Processed) {
+					return fmt.Sprintf("frame %d: the bucket shows the typed arguments %s but a member has %s", ci, jsonStr(bc.Args.Processed), jsonStr(m.Stack.Calls[ci].Args.Processed))
+				}
+			}
+		}
 		for ai := range bc.Args.Values {
 			sub := make([]*MArg, len(members))
 			for k, m := range members {
